@@ -1,4 +1,5 @@
 import Snel.Lemmas.ShardWal
+import Snel.Lemmas.WalBuf
 /-!
 # C01 — applied writes survive any crash and restart, exactly once
 
@@ -103,5 +104,70 @@ theorem C01_exactly_once_fails :
 
 /-- Non-vacuity of `C01_store_durable_partial`: a reachable state with a linked log. -/
 example : (runOps (Shard.init 2 2) [.store ⟨1,0,0⟩, .store ⟨2,0,0⟩, .drain]).walOrphan = false := by decide
+
+/-! ## The WAL file at byte level (`Snel.Model.WalBuf`)
+
+The log file under `BufWriter` for EVERY buffer capacity (0 = unbuffered), with or without
+`flush_each_write`, for any number of process lifetimes each ended by a kill at any moment. The
+`walbuf` stream compares the bytes the real writer leaves on disk with this model, with entry
+lengths placed so that buffer boundaries fall inside, at the end of, and just before the end of
+entries. -/
+section WalBytes
+open Snel.WalBuf
+
+/-- What recovery reads back after any number of killed lifetimes is, per lifetime, a PREFIX of
+the entries appended in it — each entry whole, none torn, merged, duplicated or reordered: the
+buffered-WAL clause of the property ("per-shard prefix of the applied events, no duplicates, no
+corruption"). For every capacity, both flush settings, every kill point (`ms` are the numbers of
+entries that reached the disk). -/
+theorem C01_wal_bytes_prefix (cap : Nat) (flushEach : Bool) (lts : List (List (List Nat)))
+    (hnl : ∀ es ∈ lts, ∀ e ∈ es, nl ∉ e) :
+    ∃ ms : List Nat, ms.length = lts.length ∧
+      lines (runLifetimes flushEach ⟨cap, [], []⟩ lts).disk = kept ms lts := by
+  obtain ⟨ms, hl, hd⟩ := lifetimes_disk flushEach lts ⟨cap, [], []⟩ rfl
+  refine ⟨ms, hl, ?_⟩
+  rw [hd]
+  simp only [List.nil_append]
+  apply lines_enc
+  intro e he
+  obtain ⟨es, hes, hee⟩ := mem_kept he
+  exact hnl es hes e hee
+
+/-- With `flush_each_write` (the configuration the crash clause is claimed for) a kill loses no
+entry the writer task has processed: the file reads back as every entry of every lifetime. -/
+theorem C01_wal_flush_each_write_keeps_all (cap : Nat) (lts : List (List (List Nat)))
+    (hnl : ∀ es ∈ lts, ∀ e ∈ es, nl ∉ e) :
+    lines (runLifetimes true ⟨cap, [], []⟩ lts).disk = lts.flatten := by
+  rw [lifetimes_flush_each lts ⟨cap, [], []⟩ rfl]
+  simp only [List.nil_append]
+  apply lines_enc
+  intro e he
+  obtain ⟨es, hes, hee⟩ := List.mem_flatten.mp he
+  exact hnl es hes e hee
+
+/-- A clean stop (`flush_and_close`) leaves every entry on disk, buffered or not. -/
+theorem C01_wal_clean_stop_keeps_all (cap : Nat) (flushEach : Bool) (es : List (List Nat))
+    (hnl : ∀ e ∈ es, nl ∉ e) :
+    lines (close (es.foldl (append flushEach) ⟨cap, [], []⟩)).disk = es := by
+  rw [close_disk flushEach ⟨cap, [], []⟩ rfl]
+  simp only [List.nil_append]
+  exact lines_enc es hnl
+
+/-- Non-vacuity: capacity 5, three entries, the kill comes while the third is still buffered. -/
+example : lines (runLifetimes false ⟨5, [], []⟩ [[[1, 2], [3], [4]], [[7, 8, 9]]]).disk = [[1, 2], [3]] := by
+  decide
+
+/-- The same statement is FALSE of the writer as it was before the repair (`appendTwo`: JSON and
+newline in two writes). Witness: capacity 3, one 3-byte entry — the buffer boundary falls between
+the JSON and its newline, the kill loses the newline, the next lifetime's first entry is appended
+to the same line: neither entry is read back. Replayed on the real engine before the repair
+(`fixed:` entry C01 in known_findings.json). -/
+theorem C01_wal_two_write_append_fails :
+    let w1 := lifetimeTwo false ⟨3, [], []⟩ [[1, 2, 3]]
+    let w2 := lifetimeTwo true w1 [[4]]
+    lines w1.disk = [[1, 2, 3]] ∧ lines w2.disk = [[1, 2, 3, 4]] := by
+  decide
+
+end WalBytes
 
 end Snel.Props.C01
